@@ -124,6 +124,9 @@ type Personality struct {
 	// CAMPadding: malformed ISO 9797-1 method 2 padding of the chip authentication data before encryption (the
 	// data itself is genuine): "marker-junk" = 80 followed by non-zero octets, "marker-tail" = 80 00.. 01.
 	CAMPadding string
+	// FixedWidthLengths: GENERAL AUTHENTICATE responses carry two-octet length fields (82 hi lo) in every data object
+	// (a conforming chip: BER does not demand the shortest form).
+	FixedWidthLengths bool
 }
 
 // PersonalityByName returns the named personality: "genuine", "ca-no-key",
